@@ -294,6 +294,11 @@ pub fn run_c08(cfg: &Config) -> i32 {
 		let specials: [&str; 6] = ["\u{1}", "\"", "\n", "\u{e9}", "\u{1f600}", "\u{1f}\u{0}"];
 		let mut l = sh;
 		while l <= max_long {
+			// plain strings and keys of exactly this length (printable ASCII only; with one space; digits)
+			for s in ["a".repeat(l), format!("{} ", "k".repeat(l)), "7".repeat(l)] {
+				c08_one(&mut rep, "long-strings", &RVal::Obj(vec![(s.clone(), RVal::Str(s.clone())), (s, RVal::Arr(vec![]))]));
+				n += 1;
+			}
 			for sp in specials {
 				let head: String = "a".repeat(l);
 				for s in [format!("{}{}b", head, sp), format!("{}{}", sp, head), format!("x{}{}{}", sp, head, sp)] {
@@ -625,6 +630,19 @@ fn run_print(cfg: &Config, id: &'static str) -> i32 {
 		// long strings
 		let mut l = sh;
 		while l <= 2200 {
+			// plain keys and strings of exactly this length, numbers with digit runs of this length
+			if l <= 700 {
+				let digits: String = (0..l.max(1)).map(|k| char::from(b'1' + ((k * 7 + l) % 9) as u8)).collect();
+				let r = RVal::Obj(vec![
+					("k".repeat(l), RVal::Str("v".repeat(l))),
+					("n".into(), RVal::Arr(vec![RVal::Num(digits.clone()), RVal::Num(format!("-0.{}e-{}", digits, digits)), RVal::Num(format!("{}.{}E+{}", digits, "0".repeat(l.max(1)), digits))])),
+				]);
+				let v = from_rval(&r);
+				for o in [POpts::pretty(), POpts::compact(), random_record(&mut rng, &r)] {
+					mon.one("long-strings", &r, &v, &o);
+					mon.rep.distinct_by_construction(1);
+				}
+			}
 			for sp in ["\u{1}", "\"", "\u{e9}", "\u{1f600}"] {
 				let s = format!("{}{}{}", "a".repeat(l), sp, "b".repeat(l % 7));
 				let r = RVal::Obj(vec![(s.clone(), RVal::Arr(vec![RVal::Str(s), RVal::Null]))]);
